@@ -9,6 +9,7 @@ CONSTANTS
   MaxSaves = 0
   MaxEvents = 0
   Dev <- TKnown
+  Pairs2 = TRUE
 CONSTRAINT Progress
 POSTCONDITION Post
 CHECK_DEADLOCK FALSE
